@@ -231,6 +231,16 @@ def r4(ctx: Context, sm) -> None:
             # a claimed invocation that the consumer never received (the poll raised before yielding it)
             key = f"{f.qualname}::claimed-not-tracked::after={last.kind}::exit={how}"
             bad.setdefault(key, (f"an invocation claimed PENDING by this runner is neither entered in self.threads nor rerouted when the iteration ends by {how} (last event on it: {last.kind} at {last.loc()}); on stop it is not released", [f"{e.loc()} {e.kind}[{e.tok}]({e.detail})" for e, _ in s.trace]))
+    # the thread table only ever holds STARTED threads: an entry made for a thread whose start() failed would be joined on
+    # stop / reclaim ("cannot join thread before it is started") and abort the stop handler for everything after it
+    ghost = None
+    for s, o in res:
+        for t in {e.tok for e, _ in s.trace if e.kind == "SPAWN!"}:
+            evs = [e for e, _ in s.trace if e.tok == t]
+            kinds = [e.kind for e in evs]
+            if "TRACK" in kinds and kinds.index("TRACK") < kinds.index("SPAWN!") and "UNTRACK" not in kinds[kinds.index("SPAWN!"):]:
+                ghost = evs[kinds.index("TRACK")]
+    ctx.add("R4", f"{f.qualname}::only-started-threads-are-tracked", ghost is None, ghost.loc() if ghost else f.loc(), "" if ghost is None else "the invocation is entered in self.threads before Thread.start(); when start() raises, the handler re-routes the invocation but the never-started thread stays in the table: _on_stop / _reclaim_available_slots call join() on it, which raises, and every invocation after it stays owned by the stopped runner")
     ctx.add("R4", f"{f.qualname}::claimed-paths-enumerated", claimed > 0, f.loc(), f"{claimed} claims over {len(res)} paths")
     if not bad:
         ctx.ok("R4", f"{f.qualname}::every-claim-tracked-or-rerouted", f.loc())
